@@ -44,14 +44,17 @@ def load_check(prop):
 def scenario_task(prop, seed, index, tier):
     module = load_check(prop)
     rng = random.Random(derive_seed(seed, prop, index))
+    pool.get_exec()
     scenario = module.generate(rng, tier, index)
     scenario["prop"] = prop
     scenario["index"] = index
+    client = pool.get_exec()
+    before = client.executions
     outcome = module.evaluate(scenario)
+    outcome["evals"] = client.executions - before  # real executions (cache hits are not counted)
     outcome["index"] = index
     if outcome.get("violations") or index < 2:
         outcome["scenario"] = scenario
-    client = pool.get_exec()
     outcome["steps_total"] = client.steps
     client.steps = 0
     return outcome
